@@ -308,6 +308,18 @@ def run(ctx):
         if any(None in r for r in t["edge_plaq"]): ctx.count("lattices_with_INVALID_sides")
         ctx.case((l.n_vertices, l.n_edges, str(t["plaq"])[:200], fam), nontrivial=len(t["plaq"]) >= 1 and l.n_edges >= 3,
                  sample=dict(case=name, V=l.n_vertices, E=l.n_edges, F=len(t["plaq"]), coordination=t["coordination"][:10]))
+    # churn: fresh lattices that are dropped after use (re-used object addresses), judged by the table oracle
+    for name, l in zoo.churn(rng, 40 if ctx.tier == "quick" else 400):
+        if min_gap(l) < GAP_MIN:
+            continue
+        try:
+            fails = oracle(l, tables_of(l), helpers_of(l))
+        except Exception as ex:
+            fails = [f"reading the tables raised {type(ex).__name__}: {ex}"]
+        if fails:
+            ctx.impl_violation(f"{name}: on a freshly built lattice {fails[0]}", dict(case=name, failures=[str(f) for f in fails[:5]], lattice=zoo.lat_to_json(l)))
+        ctx.case((name, l.n_vertices, l.n_edges), nontrivial=l.n_edges >= 3)
+        ctx.count("churn_lattices")
     ctx.assumptions += ["clockwise_about is read as anticlockwise-from-+x (pinned by koala's own test): agreement = same edge set, far ends, mirror cyclic order",
                         "CPython pickle and functools.cached_property behave as documented (the cache state machine of Props/C02 models them)"]
 
